@@ -328,7 +328,7 @@ open Lean Elab Command in
                                    text=True, timeout=10).stdout.rstrip("\n").split("\t")
             except Exception:
                 return False
-            if len(m) < 2 or o == "" or o == "bad-op" or m[0] == "bad-op":
+            if len(m) < 2 or o == "" or o == "bad-op" or m[0] == "bad-op" or o.startswith("panic badinput"):
                 return False
             if kind == "impl∉spec":
                 return not self.match(m[1], o) and not self.known(r, o)
@@ -554,7 +554,11 @@ def run_check(prop, tier, seed):
     lines = run.vectors(n * escalate, extra)
     run.samples = lines[run.n_corpus: run.n_corpus + 6] + lines[-6:]
     profiles = cfg["profiles"][ti]
+    if run.broken_obligations:
+        # a proof or tie is broken: search every profile the thorough tier knows (wrap-around shows only without overflow checks)
+        profiles = list(dict.fromkeys(list(profiles) + list(cfg["profiles"][1]) + ["release"]))
     outputs = {}
+    exes = {}
     first = None
     for prof in profiles:
         exe = run.cargo_build(prof)
@@ -564,6 +568,7 @@ def run_check(prop, tier, seed):
         run.compare(lines, impl, model, prof, count=(first is None))
         outputs[prof] = impl
         run.profiles_run.append(prof)
+        exes[prof] = (exe, PROFILE_FLAGS[prof][2])
         if first is None:
             first = (exe, PROFILE_FLAGS[prof][2])
     if prop == "C20" and len(outputs) > 1:
@@ -599,9 +604,11 @@ def run_check(prop, tier, seed):
     # shrink the first few failures
     if run.violations and first:
         shrunk = []
-        for v in run.violations[:3]:
+        spec_first = sorted(run.violations, key=lambda v: 0 if v[0] == "impl∉spec" else 1)
+        for v in spec_first[:3]:
             if v[0] in ("impl∉spec", "impl≠model") and not v[1].startswith("Dec!") and not v[1].startswith("threads"):
-                s = run.shrink(first[0], first[1], v[1], v[0])
+                ex = exes.get(v[4], first)
+                s = run.shrink(ex[0], ex[1], v[1], v[0])
                 if s != v[1]:
                     shrunk.append((v[0] + "(shrunk)", s, "?", "?", v[4]))
         run.violations = shrunk + run.violations
@@ -618,13 +625,24 @@ def replay(prop, path):
     for o in obl:
         print(o)
     bad = 0
+    # each request is replayed under the build it was recorded with (`# … build=<profile>` precedes it)
+    tagged, tag = [], "dev"
+    for l in Path(path).read_text().split("\n"):
+        m = re.match(r"# .*\bbuild=([A-Za-z0-9_+-]+)", l)
+        if m:
+            tag = m.group(1)
+        elif l.strip() and not l.startswith("#"):
+            tagged.append((tag if tag in PROFILE_FLAGS else "dev", l))
+            tag = "dev"
     if reqs and not reqs[0].startswith("Dec!"):
-        exe = run.cargo_build("dev")
-        impl, model = run.run_pair(exe, "oc=1,da=1", reqs, "replay")
-        for r, i, m in zip(reqs, impl, model):
-            ok = run.match(m[1], i) and i == m[0]
-            print(("ok   " if ok else "FAIL ") + f"{r}\n      impl=[{i}] model=[{m[0]}] spec=[{m[1]}]")
-            bad += 0 if ok else 1
+        for prof in list(dict.fromkeys(t for t, _ in tagged)):
+            sub = [l for t, l in tagged if t == prof]
+            exe = run.cargo_build(prof)
+            impl, model = run.run_pair(exe, PROFILE_FLAGS[prof][2], sub, "replay-" + prof)
+            for r, i, m in zip(sub, impl, model):
+                ok = run.match(m[1], i) and i == m[0]
+                print(("ok   " if ok else "FAIL ") + f"[{prof}] {r}\n      impl=[{i}] model=[{m[0]}] spec=[{m[1]}]")
+                bad += 0 if ok else 1
     if run.broken_obligations:
         for b in run.broken_obligations:
             print("BROKEN-OBLIGATION", b)
